@@ -29,7 +29,9 @@ RULE = ("treebanks A, B of 1..2 sentences (all shapes n<=3 plus seeded random tr
         "transformations occur, each with its documented prerequisites) x writer format; histories = the probe call "
         "preceded by 0..3 calls drawn from readers, transformation chains, writers, grammar functions, transition "
         "extractors, analysis tasks (fresh inputs, terminal files with fresh names; one call of every history is the "
-        "probe's own function on other data; sentence ids vary); one evaluation = one (pipeline, "
+        "probe's own function on other data; sentence ids vary; separately: the probe's own terminal-file "
+        "function called before with the same terminal file -- same name, unchanged content -- on a tree with "
+        "the same sentence id, judged in a reloaded state and in fresh processes); one evaluation = one (pipeline, "
         "A, B) or one (call, history) or one command line under three hash seeds; non-trivial = distinct evaluation "
         "whose probe produced a non-empty result")
 
@@ -41,6 +43,7 @@ def BOUNDS(ctx):
             "concat_grammar": 90 if q else 900, "concat_analysis": 20 if q else 200,
             "concat_transitions": 30 if q else 300, "concat_cli": 9 if q else 27,
             "histories": 220 if q else 3000, "history_max_calls": 4, "fresh_process_histories": 12 if q else 60,
+            "same_file_histories": 32 if q else 320, "same_file_fresh_process": 4 if q else 24,
             "cache_cases": 24 if q else 120, "hashseed_commands": 9 if q else 18, "hashseeds": [0, 1, 12345],
             "writer_trees": 40 if q else 400}
 
@@ -900,6 +903,31 @@ def _sibling_call(ctx, call):
     return {"k": "analysis", "specs": _bank(ctx, 2)}
 
 
+def _same_file_case(ctx, i):
+    """(probe, history): the probe's own function was already called with the SAME terminal file (same
+    name, content unchanged) on a tree with the SAME sentence id -- two treebank files numbered from 1
+    transformed one after the other, or one treebank transformed twice.  The probe must come out as in
+    a fresh process."""
+    rng = ctx.rng
+    fn = ["insert_terminals", "substitute_terminals"][i % 2]
+    chain = [[fn, {"quiet": True, "terminalfile": "@TF"}]]
+    if i % 8 == 6:
+        chain = CHAINS[-1]                       # insert_terminals, then re-attachment of punctuation
+    sid = rng.randint(1, 60)
+    first = _tree(ctx, n=rng.randint(2, 5), sid=sid)
+    second = first if i % 3 == 0 else _tree(ctx, n=rng.randint(2, 5), sid=sid)
+    tf = [[sid, 1, "neu", "XY"]]
+    if i % 2 == 0 and i % 4 == 0:
+        tf.append([sid, 3, "\"", "$("])
+    if i % 5 == 1:
+        tf.append([sid + 1, 1, "fremd", "XZ"])      # a request for another sentence
+    name = "shared%d.txt" % i
+    probe = {"k": "trans", "chain": chain, "spec": second, "climb": True, "tf": tf, "tfname": name}
+    sib = {"k": "trans", "chain": chain, "spec": first, "climb": True, "tf": tf, "tfname": name}
+    hist = [[sib], [_random_call(ctx), sib], [sib, _random_call(ctx)], [sib, dict(sib, spec=second)]][i % 4]
+    return probe, hist
+
+
 def _history_for(ctx, call, length):
     """`length` calls, one of them of the same kind as the probe"""
     hist = [_random_call(ctx) for _ in range(length)]
@@ -1011,6 +1039,10 @@ def generate(ctx):
         call = _root_attach_call(ctx) if i % 5 == 4 else _random_call(ctx)
         hist = _history_for(ctx, call, i % b["history_max_calls"])
         yield "history", {"call": call, "history": hist}, "h%d" % i
+    # the same terminal file (same name, unchanged content) used again for the same sentence id
+    for i in range(b["same_file_histories"]):
+        call, hist = _same_file_case(ctx, i)
+        yield "history", {"call": call, "history": hist}, "s%d" % i
     # same terminal file name
     for i in range(b["cache_cases"]):
         fn = ["insert_terminals", "substitute_terminals"][i % 2]
@@ -1043,6 +1075,9 @@ def generate(ctx):
                 call["tf"] = [[sid, 1, "neu", "XY"]]
         hist = _history_for(ctx, call, 3)
         yield "history_fresh_process", {"call": call, "history": hist}, "f%d" % i
+    for i in range(b["same_file_fresh_process"]):
+        call, hist = _same_file_case(ctx, i)
+        yield "history_fresh_process", {"call": call, "history": hist}, "fs%d" % i
     names = sorted(CLI_CASES)
     for i in range(b["concat_cli"]):
         name = names[i % len(names)]
